@@ -356,16 +356,23 @@ static carquet_status_t flush_row_group(carquet_writer_t* writer) {
         /* Encodings used */
         meta->num_encodings = 2;  /* PLAIN + RLE for levels */
         meta->encodings = carquet_arena_calloc(&writer->arena, 2, sizeof(carquet_encoding_t));
-        if (meta->encodings) {
-            meta->encodings[0] = CARQUET_ENCODING_PLAIN;
-            meta->encodings[1] = CARQUET_ENCODING_RLE;
+        if (!meta->encodings) {
+            return CARQUET_ERROR_OUT_OF_MEMORY;
         }
+        meta->encodings[0] = CARQUET_ENCODING_PLAIN;
+        meta->encodings[1] = CARQUET_ENCODING_RLE;
 
         /* Path in schema */
         meta->path_len = 1;
         meta->path_in_schema = carquet_arena_calloc(&writer->arena, 1, sizeof(char*));
-        if (meta->path_in_schema && col_info->path) {
+        if (!meta->path_in_schema) {
+            return CARQUET_ERROR_OUT_OF_MEMORY;
+        }
+        if (col_info->path) {
             meta->path_in_schema[0] = carquet_arena_strdup(&writer->arena, col_info->path);
+            if (!meta->path_in_schema[0]) {
+                return CARQUET_ERROR_OUT_OF_MEMORY;
+            }
         }
     }
 
@@ -391,6 +398,9 @@ static carquet_status_t build_file_metadata(
     metadata->num_rows = writer->total_rows;
     metadata->created_by = carquet_arena_strdup(&writer->arena,
         writer->options.created_by ? writer->options.created_by : "Carquet");
+    if (!metadata->created_by) {
+        return CARQUET_ERROR_OUT_OF_MEMORY;
+    }
 
     /* Build schema: root group + leaf columns */
     int32_t num_schema_elements = 1 + writer->num_columns;
@@ -405,6 +415,9 @@ static carquet_status_t build_file_metadata(
     /* Root element */
     parquet_schema_element_t* root = &metadata->schema[0];
     root->name = carquet_arena_strdup(&writer->arena, "schema");
+    if (!root->name) {
+        return CARQUET_ERROR_OUT_OF_MEMORY;
+    }
     root->num_children = writer->num_columns;
     root->has_repetition = false;
 
@@ -414,6 +427,9 @@ static carquet_status_t build_file_metadata(
         parquet_schema_element_t* elem = &metadata->schema[1 + i];
 
         elem->name = carquet_arena_strdup(&writer->arena, col->name);
+        if (!elem->name) {
+            return CARQUET_ERROR_OUT_OF_MEMORY;
+        }
         elem->has_type = true;
         elem->type = col->physical_type;
         elem->has_repetition = true;
